@@ -237,6 +237,7 @@ impl<W: Write + io::Seek> ZipWriter<W> {
 }
 // ---- append
 //@include spec/dir_parsed.rs
+//@include spec/dir_count.rs
 pub open spec fn dir_start_of(files: Seq<ZipFileData>) -> int { if files.len() > 0 { files[0].central_header_start as int } else { 0 } }
 pub uninterp spec fn append_offset(files: Seq<ZipFileData>, d: Seq<u8>) -> u64;
 // parsed entries carry DOS times, whose year is at least 1980 (DateTime::from_msdos, proved in U6)
